@@ -298,6 +298,65 @@ def run_c10(tier):
                                                   "stderr": p.stderr.decode("utf8", "replace")[-400:]})
         if c["sc"]["quiet"] and (p.stdout or p.stderr):
             v.disagree("quiet-prints", c, {"stdout": p.stdout[:200].decode("utf8", "replace")})
+    # hand-made volume / repetition / device scenarios, in-process and as real processes: each recorded run must be a behaviour
+    # of Pipeline.tla (free environment: the specification does not say which step fails, only what a failing run looks like)
+    extra = []
+    for n in (1, 2, 255, 256, 257, 512):
+        extra.append(("errors-%d" % n, "services:\n" + "".join("  s%d: {constructor: NewA, arguments: [\"@nope%d\"]}\n" % (i, i) for i in range(n)), [], "out.go"))
+        extra.append(("param-errors-%d" % n, "parameters:\n" + "".join("  p%d: \"%%nope%d%%\"\n" % (i, i) for i in range(n)), [], "out.go"))
+    extra.append(("same-text-twice", "services:\n  s: {constructor: NewA, arguments: [\"%nope%\", \"%nope%\", \"@gone\", \"@gone\"], fields: {A: \"%nope%\", B: \"@gone\"}}\n", [], "out.go"))
+    extra.append(("same-broken-file-twice", "services: [\n", ["-i", "in.yaml", "-i", "./in.yaml"], "out.go"))
+    extra.append(("same-invalid-file-twice", "services: {s: {constructor: \"not a constructor\"}}\n", ["-i", "in.yaml", "-i", "*.yaml"], "out.go"))
+    if os.path.exists("/dev/full"):
+        for fl in ([], ["--stub"]):
+            extra.append(("device-full" + "".join(fl), BASE, fl, "/dev/full"))
+            extra.append(("device-full-big" + "".join(fl), BASE + "parameters:\n" + "".join("  q%d: %d\n" % (i, i) for i in range(400)), fl, "/dev/full"))
+    xjobs = []
+    for i, (label, y, xargs, outp) in enumerate(extra):
+        for mode in ("drv", "proc"):
+            d = os.path.join(wd, "x-%s-%03d" % (mode, i))
+            os.makedirs(d)
+            with open(os.path.join(d, "in.yaml"), "w") as f:
+                f.write(y)
+            if outp == "out.go":
+                with open(os.path.join(d, outp), "w") as f:
+                    f.write("// previous content\n")
+        args = (xargs if "-i" in xargs else ["-i", "in.yaml"] + xargs) + ["-o", outp]
+        xjobs.append({"id": i, "dir": os.path.join(wd, "x-drv-%03d" % i), "args": args, "version": "1.2.3", "buildinfo": "verif c10", "out": outp})
+    pool = core.DriverPool()
+    try:
+        xres = pool.run_all(xjobs)
+    finally:
+        pool.close()
+    xtraces, xown = [], []
+    for (label, y, xargs, outp), j, res in zip(extra, xjobs, xres):
+        case = {"scenario": label, "args": j["args"], "input_head": y[:300]}
+        if res["exit"] not in (0, 1):
+            v.disagree("abnormal-exit", case, {"exit": res["exit"], "panic": res.get("panic", "")[:600]})
+            continue
+        pre, post = res["pre"], res["post"]
+        same = (post.get("kind"), post.get("sha")) == (pre.get("kind"), pre.get("sha"))
+        outstate = ("new" if post.get("kind") == "file" and not same else "other") if res["exit"] == 0 else ("pre" if same else "other")
+        sc = {"pats": ["good1"], "defects": [], "quiet": False, "stub": "--stub" in j["args"], "ignoreP": False, "ignoreS": False,
+              "outpre": "file" if outp == "out.go" else "absent", "free": True}
+        xtraces.append(events_of(sc, res, outstate))
+        xown.append((case, res))
+        p = subprocess.run([tool, "build"] + j["args"], cwd=j["dir"].replace("x-drv-", "x-proc-"), stdout=subprocess.PIPE, stderr=subprocess.PIPE, timeout=120)
+        n_proc += 1
+        if p.returncode != res["exit"]:
+            v.disagree("process-exit-status", case, {"in_process": res["exit"], "process": p.returncode, "stdout_tail": p.stdout.decode("utf8", "replace")[-300:]})
+        elif p.stdout.decode("utf8", "replace") != res["stdout"]:
+            v.disagree("process-and-in-process-reports-differ", case, {"process": p.stdout.decode("utf8", "replace")[-400:], "in_process": res["stdout"][-400:]})
+    for _ in range(10):
+        if not xtraces:
+            break
+        ok, bad, tr = validate_traces(xtraces)
+        if ok:
+            break
+        case, res = xown[bad]
+        v.disagree("execution-is-not-a-behaviour-of-Pipeline", case, {"trace": xtraces[bad][-6:], "stdout_tail": res["stdout"][-500:]})
+        del xtraces[bad], xown[bad]
+    traces += xtraces
     shutil.rmtree(wd, ignore_errors=True)
     if n_ok == 0 or n_fail == 0 or len(classes) < 8:
         raise core.InfraError("degenerate exploration ok=%d fail=%d classes=%d" % (n_ok, n_fail, len(classes)))
@@ -320,7 +379,7 @@ def run_c10(tier):
                   "obligations": obligations, "discharged": obligations},
         "known_findings_hit": {k: n for k, (f, n) in v.known_hit.items()},
     }, time.time() - t0, violations=len(v.violations),
-        assumptions=["faults that cannot be injected as root (EACCES, ENOSPC, short writes) are not explored",
+        assumptions=["faults that cannot be injected as root (EACCES, short writes) are not explored; ENOSPC only through /dev/full",
                      "not-gofmt-able function arguments combined with --stub are outside the documented input contract and not enumerated",
                      "the number of errors a failing step reports is not predicted by the specification, only that the list has that length"])
     return rc
